@@ -55,7 +55,10 @@ def _case(draw, big):
                   st.sampled_from([0, 0, 1, 2]), st.integers(0, 1), st.sampled_from(["short-exp", "short-exp-2", "short-exp-6"]),
                   st.sampled_from(["set", "set", "arg", "default", "default"]), st.sampled_from([1, 2, 5]),
                   st.sampled_from([pd_pref, pd_pref, pd_pref, None, "Lorentzian", "Gaussian"])),
-        st.builds(lambda r, L: {"op": "sv", "psi": r, "L": L}, st.integers(0, 1), st.sampled_from([2, 4])),
+        st.builds(lambda r, L, h: {"op": "sv", "psi": r, "L": L, "hfce": h}, st.integers(0, 1), st.sampled_from([2, 4]),
+                  st.sampled_from([False, False, True])),
+        # closed-system propagation on a time axis that does not start at zero, converted from the rotating frame
+        st.builds(lambda r: {"op": "rdm_shifted", "rho": r}, st.integers(0, 1)),
         st.builds(lambda r: {"op": "pop", "p": r}, st.integers(0, 1)),
         # propagation matrix of the population propagator on a sub-axis, optionally with corrections
         st.builds(lambda c: {"op": "popmat", "corr": c}, st.sampled_from([None, 0, 0])),
@@ -117,6 +120,7 @@ class Pool(object):
         self.svprop = None
         self.popprop = None
         self.rates = None          # rate matrix handed to the population propagator
+        self.ta2 = qr.TimeAxis(50.0, 30, 1.0)        # a propagation axis that does not start at zero
         # a Lindblad-type system-bath interaction shared by several Lindblad forms
         from quantarhei.qm import SystemBathInteraction, Operator
         ks = []
@@ -147,6 +151,7 @@ class Pool(object):
             fp["sbi.cf%d.lamb" % i] = numpy.array([cf.lamb, cf.temperature])
         fp["sbi.time"] = _fp_array(self.sbi.TimeAxis.data)
         fp["ta"] = _fp_array(self.ta.data)
+        fp["ta2"] = numpy.concatenate([_fp_array(self.ta2.data), [self.ta2.start, self.ta2.step]])
         for k, r in enumerate(self.rho_objs):
             fp["rho%d" % k] = _fp_array(r._data)
         for k, p in enumerate(self.psis):
@@ -303,7 +308,20 @@ def check_case(case, ctx):
                 if pool.svprop is None:
                     pool.svprop = StateVectorPropagator(pool.ta, pool.ham)
                 key = ("sv", op["psi"], op["L"])
+                if op.get("hfce"):
+                    # the Hamiltonian handed over as a (here constant) function of time: the same evolution
+                    where = "sv/hfce"
+                    return numpy.array(pool.svprop.propagate(pool.psis[op["psi"]], L=op["L"],
+                                                             hfce=lambda t: pool.ham).data)
                 return numpy.array(pool.svprop.propagate(pool.psis[op["psi"]], L=op["L"]).data)
+            if kind == "rdm_shifted":
+                key = ("rdm_shifted", op["rho"])
+                where = "rdm/shifted-axis-from-rwa"
+                pr = ReducedDensityMatrixPropagator(pool.ta2, pool.ham)
+                rt = pr.propagate(pool.rho_objs[op["rho"]])
+                if pool.ham.has_rwa:
+                    rt.convert_from_RWA(pool.ham)
+                return numpy.array(rt.data)
             if kind in ("pop", "popmat"):
                 if pool.popprop is None:
                     # (a RateMatrix object: get_PropagationMatrix needs an array-like rate matrix)
